@@ -222,4 +222,26 @@ theorem probs_rows_ok (values : List Int) (scores : List (List Rat)) (o : Out)
   · right
     rw [h1, rabs_zero]
 
+/-- a normalised row with its columns moved to the label values -/
+def movedRow (values : List Int) (r : List Rat) : List Rat :=
+  tab ((values.foldl max 0) + 1).toNat fun q =>
+    match (uniqueLabels values).findIdx? (· == (q : Int)) with
+    | some k => r.getD k 0
+    | none => 0
+
+theorem probs_eq_moved (values : List Int) (scores : List (List Rat)) (o : Out)
+    (h : fitCore values scores = .ok o) : o.probs = (scores.map normalizeRow).map (movedRow values) :=
+  (fit_parts values scores o h).probs_eq
+
+theorem rsum_movedRow (values : List Int) (r : List Rat) (hlen : r.length = (uniqueLabels values).length) :
+    rsum (movedRow values r) = rsum r := by
+  unfold movedRow
+  rw [rsum_reindex (uniqueLabels values) _ (fun k => r.getD k 0) (uniqueLabels_nodup values)]
+  · rw [← hlen]
+    exact rsum_eq_tab_getD _
+  · intro u hu
+    obtain ⟨hm, h0⟩ := mem_uniqueLabels.mp hu
+    have := (Knn.foldl_max_ge' values 0).2 u hm
+    exact ⟨h0, by omega⟩
+
 end SkNet.Classify.Rank
